@@ -807,6 +807,14 @@ class _Consumers(ast.NodeTransformer):
 
     def visit_BoolOp(self, n):
         self.generic_visit(n)
+        # `a or (b or c)` == `a or b or c` (and likewise for `and`)
+        flat: List[ast.expr] = []
+        for v in n.values:
+            if isinstance(v, ast.BoolOp) and type(v.op) is type(n.op):
+                flat += v.values
+            else:
+                flat.append(v)
+        n.values = flat
         if isinstance(n.op, ast.Or):
             out: List[ast.expr] = []
             for v in n.values:
@@ -830,9 +838,9 @@ class _Consumers(ast.NodeTransformer):
         self.generic_visit(n)
         pure = not any(isinstance(x, (ast.Call, ast.Await, ast.NamedExpr)) for x in ast.walk(n.test))
         if pure and norm(n.test) == norm(n.body):
-            return _loc(ast.BoolOp(op=ast.Or(), values=[n.body, n.orelse]), n)   # a if a else b
+            return self.visit_BoolOp(_loc(ast.BoolOp(op=ast.Or(), values=[n.body, n.orelse]), n))   # a if a else b
         if pure and isinstance(n.test, ast.UnaryOp) and isinstance(n.test.op, ast.Not) and norm(n.test.operand) == norm(n.orelse):
-            return _loc(ast.BoolOp(op=ast.Or(), values=[n.orelse, n.body]), n)   # b if not a else a
+            return self.visit_BoolOp(_loc(ast.BoolOp(op=ast.Or(), values=[n.orelse, n.body]), n))   # b if not a else a
         return n
 
     def visit_Call(self, n):
